@@ -25,7 +25,11 @@ def mk(t, dims, fn, arg='tensor'):
         N = dims[0]
         pre = '%s ab[%d]; for(int p=0;p<%d;p++) for(int q=0;q<%d;q++){ %s s=0; for(int k=0;k<%d;k++) s+=a[p*%d+k]*b[k*%d+q]; ab[p*%d+q]=s; }' % (ct, n, N, N, ct, N, N, N, N)
         Aref = 'ab[i]'
-    if fn == 'sum':
+    if fn in ('msum', 'mproduct'):    # the member forms a.sum(), a.product() (separate kernels in TensorMethods.h)
+        assert arg == 'tensor'
+        call = 'a.%s()' % fn[1:]
+        body = ('%s h=0; for(int i=0;i<%d;i++) h+=a[i]; *r=h;' if fn == 'msum' else '%s h=1; for(int i=0;i<%d;i++) h*=a[i]; *r=h;') % (ct, n)
+    elif fn == 'sum':
         call = 'sum(%s)' % A; body = '%s h=0; for(int i=0;i<%d;i++) h+=%s; *r=h;' % (ct, n, Aref)
     elif fn == 'product':
         call = 'product(%s)' % A; body = '%s h=1; for(int i=0;i<%d;i++) h*=%s; *r=h;' % (ct, n, Aref)
@@ -84,8 +88,10 @@ def witnesses(tier, seed):
     for t in ('f32', 'f64', 'i32', 'i64'):
         fp = t in ('f32', 'f64')
         for n in sizes:
-            for fn in ('sum', 'product', 'min', 'max', 'inner') + (('norm',) if fp else ()):
+            for fn in ('sum', 'product', 'min', 'max', 'inner', 'msum', 'mproduct') + (('norm',) if fp else ()):
                 W.append(mk(t, [n], fn))
+                if fn.startswith('m') and fn not in ('min', 'max'):
+                    continue
                 if n % 3 == seed % 3 or not quick:
                     if fn != 'inner':
                         W.append(mk(t, [n], fn, 'expr'))
